@@ -1212,7 +1212,12 @@ func (r condition) string() string {
 		pad = ``
 	}
 
-	s := r.kw + pad + r.op.String() + pad + val
+	var op string
+	if r.op != nil {
+		op = r.op.String()
+	}
+
+	s := r.kw + pad + op + pad + val
 	if r.cfg.positive(parens) {
 		s = `(` + pad + s + pad + `)`
 	}
